@@ -27,6 +27,10 @@ def generation(maxlen, profile):
     return scripts, pool[0], common.tlc_stats(out)
 
 
+MARK_TEXTS = {"plain": "9.9.9 verif", "multiline": "9.9.9\nsecond line of the mark.", "crlf": "9.9.9\r\nsecond line of the mark.",
+              "quotes": "use \"other\" instead \\ */ \'\'\' " + '"' * 3 + " ' done"}
+
+
 def struct(doc, name):
     return next(s for s in doc["structures"] if s["name"] == name)
 
@@ -95,7 +99,8 @@ def apply_script(base, script, typool):
             a.update(list="notifications", ins=r)
             touched.add("verif/didLookup")
         elif k == "Mark":
-            val = {"proposed": True, "deprecated": "verif: deprecated", "since": "9.9.9"}[e["mark"]]
+            text = MARK_TEXTS[e.get("text", "plain")]
+            val = {"proposed": True, "deprecated": text, "since": text}[e["mark"]]
             if e["on"] == "structure":
                 struct(d, "Color")[e["mark"]] = val
                 a.update(touch="Color", list="structures")
@@ -150,7 +155,7 @@ def one_model(args):
     idx, script, typool, base, tier = args
     work = common.scratch("c06-%d-" % idx)
     fails = []
-    label = "+".join(e["k"] + ((":" + e["ty"]) if "ty" in e else "") + ((":" + e["name"]) if e["k"] == "AddProperty" else "") for e in script) or "identity"
+    label = "+".join(e["k"] + ((":" + e["ty"]) if "ty" in e else "") + ((":" + e["mark"] + "/" + e.get("text", "plain")) if e["k"] == "Mark" else "") + ((":" + e["name"]) if e["k"] == "AddProperty" else "") for e in script) or "identity"
 
     def fail(stage, clause, pos, detail=None):
         fails.append({"stage": stage, "clause": clause, "pos": pos, "detail": detail})
@@ -181,7 +186,10 @@ def one_model(args):
         # 3. Python package: image (C04 C09 C10 C13 static) and codec sessions on the touched declarations (C01 C02 C03 C10)
         if "python" in outs:
             pkg = scratch_package(work, os.path.join(outs["python"], "lsprotocol", "types.py"))
-            ef, _ = check_image.emit_order(os.path.join(outs["python"], "lsprotocol", "types.py"), mpath)
+            try:
+                ef, _ = check_image.emit_order(os.path.join(outs["python"], "lsprotocol", "types.py"), mpath)
+            except SyntaxError as e:                  # the generated module is not Python at all: a verdict, not a machinery failure
+                ef = [{"c": "O_does_not_parse", "pos": "%s line %s" % (type(e).__name__, e.lineno)}]
             for f in ef:
                 fail("python-emission", f["c"], f["pos"])
             res = check_image.run(model=mpath, pkg_path=pkg)
